@@ -3,18 +3,18 @@ from checks import unitscheck
 
 MENUS = {
     'quick': [
-        ('memo', ['tA', 'tB', 'tAB', 'ka', 'kab', 'm_ka_b', 'm_b_ka', 'd_kab_b', 'p_ka_2', 'tA2'], 8),
-        ('order', ['tA', 'tA2', 'ka', 'ka2', 'aa', 'm_ka_ka', 'm_a_ha', 'ha', 'd_a2_ka', 'p_ka_2'], 8),
-        ('cancel', ['tA', 'tB', 'tBi', 'tApB', 'ka', 'm_b_bi', 'd_ka_b', 'm_apb_b', 'd_ka_ha', 'ha', 'd_ka_ka'], 7),
-        ('noref', ['tA', 'tM', 'tMpA', 'p', 'q', 'ppa', 'qpa', 'm_ppa_a', 'm_qpa_a', 'm_a_qpa', 'd_ppa_qpa'], 9),
-        ('exp2', ['tA', 'tB', 'tApB', 'tApB2', 'ka', 'cb', 'kapcb2', 'd_ka_cb', 'd_ka_b'], 8),
-        ('sameDef', ['tA', 'tA2', 'ka', 'ka2', 'kk', 'd_kk_ka', 'd_ka2_ka', 'm_ka_ka', 'p_ka_2'], 7),
+        ('memo', ['tA', 'tB', 'tAB', 'ka', 'kab', 'm_ka_b', 'm_b_ka', 'd_kab_b', 'p_ka_2', 'tA2'], 7),
+        ('order', ['tA', 'tA2', 'ka', 'ka2', 'aa', 'm_ka_ka', 'm_a_ha', 'ha', 'd_a2_ka', 'p_ka_2'], 7),
+        ('cancel', ['tA', 'tB', 'tBi', 'tApB', 'ka', 'm_b_bi', 'd_ka_b', 'm_apb_b', 'd_ka_ha', 'ha', 'd_ka_ka'], 6),
+        ('noref', ['tA', 'tM', 'tMpA', 'p', 'q', 'ppa', 'qpa', 'm_ppa_a', 'm_qpa_a', 'm_a_qpa', 'd_ppa_qpa'], 8),
+        ('exp2', ['tA', 'tB', 'tApB', 'tApB2', 'ka', 'cb', 'kapcb2', 'd_ka_cb', 'd_ka_b'], 7),
+        ('sameDef', ['tA', 'tA2', 'ka', 'ka2', 'kk', 'd_kk_ka', 'd_ka2_ka', 'm_ka_ka', 'p_ka_2'], 6),
     ],
     'thorough': [
-        ('memo', ['tA', 'tB', 'tAB', 'ka', 'cb', 'kab', 'kacb', 'm_ka_b', 'm_b_ka', 'm_ka_cb', 'd_kab_b', 'p_ka_2', 'tA2'], 8),
-        ('order', ['tA', 'tA2', 'ka', 'ka2', 'aa', 'sq', 'm_ka_ka', 'm_a_ha', 'ha', 'd_a2_ka', 'p_ka_2', 'p_ka_3'], 8),
-        ('cancel', ['tA', 'tB', 'tBi', 'tApB', 'ka', 'm_b_bi', 'd_ka_b', 'm_apb_b', 'd_ka_ha', 'ha', 'd_ka_ka', 'p_ka_m1'], 7),
-        ('noref', ['tA', 'tM', 'tMpA', 'p', 'q', 'ka', 'ppa', 'm_ppa_a', 'm_ppa_ka', 'd_p_a', 'd_p_ka', 'd_p_q', 'd_p_p', 'm_p_q'], 7),
+        ('memo', ['tA', 'tB', 'tAB', 'ka', 'cb', 'kab', 'kacb', 'm_ka_b', 'm_b_ka', 'm_ka_cb', 'd_kab_b', 'p_ka_2', 'tA2'], 7),
+        ('order', ['tA', 'tA2', 'ka', 'ka2', 'aa', 'sq', 'm_ka_ka', 'm_a_ha', 'ha', 'd_a2_ka', 'p_ka_2', 'p_ka_3'], 7),
+        ('cancel', ['tA', 'tB', 'tBi', 'tApB', 'ka', 'm_b_bi', 'd_ka_b', 'm_apb_b', 'd_ka_ha', 'ha', 'd_ka_ka', 'p_ka_m1'], 6),
+        ('noref', ['tA', 'tM', 'tMpA', 'p', 'q', 'ka', 'ppa', 'm_ppa_a', 'm_ppa_ka', 'd_p_a', 'd_p_ka', 'd_p_q', 'd_p_p', 'm_p_q'], 6),
     ]}
 
 
